@@ -110,6 +110,8 @@ def answerPins (ws : List String) : String :=
                            mar := ← (field "mar" post).bind parseRT, snap := ← (field "snap" post).bind parseRT,
                            start := ← (field "start" post).bind parseRT }
       pure (i, o)
+    -- a cut Marshal stream (only in damaged cases): whatever was loaded comes from the stream
+    let marx : Option RT := ((field "marx" post).bind parseRT).getD none
     match parsed with
     | none => "bad-case pins-parse"
     | some (i, o) =>
@@ -125,7 +127,10 @@ def answerPins (ws : List String) : String :=
       let same : Res × PinMap := (.ok src, unmarshal (fromList i.prior) src)
       let checks : List (String × Bool) :=
         [("src", o.src == src), ("exp", rtAgrees o.exp (modelExp i src)), ("expc", rtAgrees o.expc (modelExpc i src)),
-         ("mar", rtAgrees o.mar same), ("snap", rtAgrees o.snap same), ("start", rtAgrees o.start same)]
+         ("mar", rtAgrees o.mar same), ("snap", rtAgrees o.snap same), ("start", rtAgrees o.start same),
+         ("marx", match marx with
+            | none => true
+            | some r => nodupCids r.pins && r.pins.all (fun p => src.contains p) && (!r.ok || r.pins.length ≤ src.length))]
       if !allHold checks then
         "diff " ++ failedNames checks ++ " arm=" ++ arm ++ " model=src=" ++ showPins src ++ " exp=" ++ showRes (modelExp i src)
       else "ok arm=" ++ arm ++ (if !wf || (i.gen.isEmpty && i.prior.isEmpty) then " trivial" else "")
@@ -175,6 +180,7 @@ def rotArm (m : Nat) : List Nat → ODirs → List (Op Nat) → List (Option ODi
     let here : List String :=
       match b.data, op with
       | some (.snap _), .clean | some (.snap _), .save _ =>
+        if k = 0 then [] else
         (if windowFull k b.dirs then ["drop"] else []) ++
         (if (List.range m).any (fun i => decide (i < k) && !runUpTo b.dirs i && (b.dirs.old i).isSome) then ["gap"] else []) ++
         (if (List.range m).any (fun i => decide (k ≤ i) && (b.dirs.old i).isSome) then ["outside"] else []) ++ ["rotate"]
@@ -220,6 +226,7 @@ def parsePinfo (s : String) : Option (Nat × List Nat) :=
 def parseLine (s : String) : Option (Option Line) :=
   if s == "nil" then some none
   else if s == "E" then some (some .empty)
+  else if s == "L" then some (some .long)
   else if s.startsWith "f" then
     match (s.drop 1).toString.splitOn "p" with
     | [a, p] => do pure (some (.full (← a.toNat?) (← p.toNat?)))
@@ -240,6 +247,7 @@ def showLine : Line → String
   | .slashBad k => "x" ++ toString k
   | .noSlash k => "n" ++ toString k
   | .empty => "E"
+  | .long => "L"
 
 def psUniverse : List Nat := List.range 24
 
@@ -297,7 +305,8 @@ def answerPsFile (ws : List String) : String :=
       let arm := "psfile" ++ (if file.any (fun l => match l with | .slashBad _ => true | _ => false) then "-slashbad" else "") ++
         (if file.any (fun l => match l with | .noSlash _ => true | .empty => true | _ => false) then "-noslash" else "") ++
         (if file.any (fun l => match l with | .bare _ => true | _ => false) then "-bare" else "") ++
-        (if contiguous (linePeers self file) then "" else "-interleaved")
+        (if contiguous (linePeers self file) then "" else "-interleaved") ++
+        (if file.contains .long then "-long" else "")
       let cs := fileClauses self file o
       if !allHold cs then "propfail " ++ failedNames cs ++ " arm=" ++ arm else
       let loadedM := load file
@@ -308,7 +317,7 @@ def answerPsFile (ws : List String) : String :=
       if !allHold checks then
         "diff " ++ failedNames checks ++ " arm=" ++ arm ++ " model=loaded=" ++ showList showLine "," loadedM ++
           " order=" ++ showNats ((peerInfos i2).map (·.1))
-      else "ok arm=" ++ arm ++ (if bad then "" else " trivial")
+      else "ok arm=" ++ arm ++ (if bad || !(linePeers self file).isEmpty then "" else " trivial")
   | _ => "bad-case psfile-shape"
 
 /-- answer for one case line (tokens after the leading "C14") -/
